@@ -80,6 +80,9 @@ func RandomSpec(r *sim.Rand) DocSpec {
 	}
 	if on(density) {
 		sp.BigStream = 1 + r.Intn(2)
+		if r.Pct(6) {
+			sp.BigStream = 3
+		}
 	}
 	if on(density) {
 		sp.Filter = 1 + r.Intn(9)
@@ -168,6 +171,7 @@ func (sp DocSpec) Features() []string {
 	add(sp.LenMode > 0 && sp.LenInStm && anyStream && sp.ObjStm > 0, "len=in-objstm")
 	add(sp.BigStream == 1, "big=4k")
 	add(sp.BigStream == 2, "big=8k")
+	add(sp.BigStream == 3, "big=1m")
 	add(sp.Filter > 0, fmt.Sprintf("filter=%d", sp.Filter))
 	add((sp.Filter == 1 || (sp.Filter >= 4 && sp.Filter <= 6)) && sp.Predictor > 0, fmt.Sprintf("predictor=%d", sp.Predictor))
 	add(sp.Split > 1, "split-content")
@@ -696,7 +700,8 @@ func SpecWithFeatures(features []string) (DocSpec, bool) {
 			sp.BigStream = 1
 		case f == "big=8k":
 			sp.BigStream = 2
-		case len(f) > 7 && f[:7] == "filter=":
+		case f == "big=1m":
+			sp.BigStream = 3
 			fmt.Sscanf(f[7:], "%d", &sp.Filter)
 		case len(f) > 10 && f[:10] == "predictor=":
 			if sp.Filter < 4 || sp.Filter > 6 {
@@ -867,7 +872,7 @@ func (sp DocSpec) Without(f string) DocSpec {
 		c.LenMode = 0
 	case f == "len=in-objstm":
 		c.LenInStm = false
-	case f == "big=4k", f == "big=8k":
+	case f == "big=4k", f == "big=8k", f == "big=1m":
 		c.BigStream = 0
 	case len(f) > 7 && f[:7] == "filter=":
 		c.Filter, c.Predictor = 0, 0
